@@ -71,6 +71,14 @@ static C r_acoth(C z) { return catanhq(1 / z); }
 static C r_neg(C z) { return -z; }
 static C r_conj(C z) { return conjq(z); }
 
+// every library function is called by its plain spelling inside a capture-less lambda, so that a function-like macro of the same
+// name in the header (which a caller writing f(x) would get) is what runs, not only the out-of-line symbol a function pointer binds to
+#define SP1(f) [](a_complex *r_, a_complex z_) { f(r_, z_); }
+#define SP1_(f) [](a_complex *r_) { f(r_); }
+#define SPS(f) [](a_complex *r_, a_complex z_, a_real s_) { f(r_, z_, s_); }
+#define SPS_(f) [](a_complex *r_, a_real s_) { f(r_, s_); }
+#define SPB(f) [](a_complex *r_, a_complex x_, a_complex y_) { f(r_, x_, y_); }
+#define SPB_(f) [](a_complex *r_, a_complex y_) { f(r_, y_); }
 struct Fn
 {
     const char *name;
@@ -79,17 +87,17 @@ struct Fn
     ref1 r;
 };
 static const Fn FNS[] = {
-    {"sqrt", a_complex_sqrt, a_complex_sqrt_, csqrtq}, {"exp", a_complex_exp, a_complex_exp_, cexpq}, {"log", a_complex_log, a_complex_log_, clogq},
-    {"log2", a_complex_log2, a_complex_log2_, r_log2}, {"log10", a_complex_log10, a_complex_log10_, clog10q},
-    {"sin", a_complex_sin, a_complex_sin_, csinq}, {"cos", a_complex_cos, a_complex_cos_, ccosq}, {"tan", a_complex_tan, a_complex_tan_, ctanq},
-    {"sec", a_complex_sec, a_complex_sec_, r_sec}, {"csc", a_complex_csc, a_complex_csc_, r_csc}, {"cot", a_complex_cot, a_complex_cot_, r_cot},
-    {"asin", a_complex_asin, a_complex_asin_, casinq}, {"acos", a_complex_acos, a_complex_acos_, cacosq}, {"atan", a_complex_atan, a_complex_atan_, catanq},
-    {"asec", a_complex_asec, a_complex_asec_, r_asec}, {"acsc", a_complex_acsc, a_complex_acsc_, r_acsc}, {"acot", a_complex_acot, a_complex_acot_, r_acot},
-    {"sinh", a_complex_sinh, a_complex_sinh_, csinhq}, {"cosh", a_complex_cosh, a_complex_cosh_, ccoshq}, {"tanh", a_complex_tanh, a_complex_tanh_, ctanhq},
-    {"sech", a_complex_sech, a_complex_sech_, r_sech}, {"csch", a_complex_csch, a_complex_csch_, r_csch}, {"coth", a_complex_coth, a_complex_coth_, r_coth},
-    {"asinh", a_complex_asinh, a_complex_asinh_, casinhq}, {"acosh", a_complex_acosh, a_complex_acosh_, cacoshq}, {"atanh", a_complex_atanh, a_complex_atanh_, catanhq},
-    {"asech", a_complex_asech, a_complex_asech_, r_asech}, {"acsch", a_complex_acsch, a_complex_acsch_, r_acsch}, {"acoth", a_complex_acoth, a_complex_acoth_, r_acoth},
-    {"inv", a_complex_inv, a_complex_inv_, r_inv}, {"neg", a_complex_neg, a_complex_neg_, r_neg}, {"conj", a_complex_conj, a_complex_conj_, r_conj},
+    {"sqrt", SP1(a_complex_sqrt), SP1_(a_complex_sqrt_), csqrtq}, {"exp", SP1(a_complex_exp), SP1_(a_complex_exp_), cexpq}, {"log", SP1(a_complex_log), SP1_(a_complex_log_), clogq},
+    {"log2", SP1(a_complex_log2), SP1_(a_complex_log2_), r_log2}, {"log10", SP1(a_complex_log10), SP1_(a_complex_log10_), clog10q},
+    {"sin", SP1(a_complex_sin), SP1_(a_complex_sin_), csinq}, {"cos", SP1(a_complex_cos), SP1_(a_complex_cos_), ccosq}, {"tan", SP1(a_complex_tan), SP1_(a_complex_tan_), ctanq},
+    {"sec", SP1(a_complex_sec), SP1_(a_complex_sec_), r_sec}, {"csc", SP1(a_complex_csc), SP1_(a_complex_csc_), r_csc}, {"cot", SP1(a_complex_cot), SP1_(a_complex_cot_), r_cot},
+    {"asin", SP1(a_complex_asin), SP1_(a_complex_asin_), casinq}, {"acos", SP1(a_complex_acos), SP1_(a_complex_acos_), cacosq}, {"atan", SP1(a_complex_atan), SP1_(a_complex_atan_), catanq},
+    {"asec", SP1(a_complex_asec), SP1_(a_complex_asec_), r_asec}, {"acsc", SP1(a_complex_acsc), SP1_(a_complex_acsc_), r_acsc}, {"acot", SP1(a_complex_acot), SP1_(a_complex_acot_), r_acot},
+    {"sinh", SP1(a_complex_sinh), SP1_(a_complex_sinh_), csinhq}, {"cosh", SP1(a_complex_cosh), SP1_(a_complex_cosh_), ccoshq}, {"tanh", SP1(a_complex_tanh), SP1_(a_complex_tanh_), ctanhq},
+    {"sech", SP1(a_complex_sech), SP1_(a_complex_sech_), r_sech}, {"csch", SP1(a_complex_csch), SP1_(a_complex_csch_), r_csch}, {"coth", SP1(a_complex_coth), SP1_(a_complex_coth_), r_coth},
+    {"asinh", SP1(a_complex_asinh), SP1_(a_complex_asinh_), casinhq}, {"acosh", SP1(a_complex_acosh), SP1_(a_complex_acosh_), cacoshq}, {"atanh", SP1(a_complex_atanh), SP1_(a_complex_atanh_), catanhq},
+    {"asech", SP1(a_complex_asech), SP1_(a_complex_asech_), r_asech}, {"acsch", SP1(a_complex_acsch), SP1_(a_complex_acsch_), r_acsch}, {"acoth", SP1(a_complex_acoth), SP1_(a_complex_acoth_), r_acoth},
+    {"inv", SP1(a_complex_inv), SP1_(a_complex_inv_), r_inv}, {"neg", SP1(a_complex_neg), SP1_(a_complex_neg_), r_neg}, {"conj", SP1(a_complex_conj), SP1_(a_complex_conj_), r_conj},
 };
 
 static std::vector<a_real> axis;
@@ -327,8 +335,8 @@ static void binary_all()
                 double ratio;
                 int rc;
                 struct SF { const char *n; void (*f)(a_complex *, a_complex, a_real); void (*f_)(a_complex *, a_real); int op; bool imag; };
-                static const SF sf[8] = {{"add_real", a_complex_add_real, a_complex_add_real_, 0, false}, {"sub_real", a_complex_sub_real, a_complex_sub_real_, 1, false}, {"mul_real", a_complex_mul_real, a_complex_mul_real_, 2, false}, {"div_real", a_complex_div_real, a_complex_div_real_, 3, false},
-                                         {"add_imag", a_complex_add_imag, a_complex_add_imag_, 0, true}, {"sub_imag", a_complex_sub_imag, a_complex_sub_imag_, 1, true}, {"mul_imag", a_complex_mul_imag, a_complex_mul_imag_, 2, true}, {"div_imag", a_complex_div_imag, a_complex_div_imag_, 3, true}};
+                static const SF sf[8] = {{"add_real", SPS(a_complex_add_real), SPS_(a_complex_add_real_), 0, false}, {"sub_real", SPS(a_complex_sub_real), SPS_(a_complex_sub_real_), 1, false}, {"mul_real", SPS(a_complex_mul_real), SPS_(a_complex_mul_real_), 2, false}, {"div_real", SPS(a_complex_div_real), SPS_(a_complex_div_real_), 3, false},
+                                         {"add_imag", SPS(a_complex_add_imag), SPS_(a_complex_add_imag_), 0, true}, {"sub_imag", SPS(a_complex_sub_imag), SPS_(a_complex_sub_imag_), 1, true}, {"mul_imag", SPS(a_complex_mul_imag), SPS_(a_complex_mul_imag_), 2, true}, {"div_imag", SPS(a_complex_div_imag), SPS_(a_complex_div_imag_), 3, true}};
                 for (const SF &q : sf)
                 {
                     if (q.op == 3 && s == 0) { continue; }
@@ -369,7 +377,7 @@ static void binary_all()
                     a_complex y = {yr, yi};
                     C yq = tocq(y);
                     struct BF { const char *n; void (*f)(a_complex *, a_complex, a_complex); void (*f_)(a_complex *, a_complex); int op; };
-                    static const BF bf[4] = {{"add", a_complex_add, a_complex_add_, 0}, {"sub", a_complex_sub, a_complex_sub_, 1}, {"mul", a_complex_mul, a_complex_mul_, 2}, {"div", a_complex_div, a_complex_div_, 3}};
+                    static const BF bf[4] = {{"add", SPB(a_complex_add), SPB_(a_complex_add_), 0}, {"sub", SPB(a_complex_sub), SPB_(a_complex_sub_), 1}, {"mul", SPB(a_complex_mul), SPB_(a_complex_mul_), 2}, {"div", SPB(a_complex_div), SPB_(a_complex_div_), 3}};
                     for (const BF &q : bf)
                     {
                         if (q.op == 3 && yr == 0 && yi == 0) { continue; }
